@@ -320,8 +320,8 @@ package workers
 //@   requires wfTriggerPool(p) && ctx != nil
 //@   ghost after call invoke:Err : G2cancelled = (ret0 != nil)
 //@   ghost before call (*TriggerPool).sendJobsForExecution : assert [unchanged] arg1 == numJobs && arg0 == p
-//@   ensures [every-live-tick-supersedes] !G2cancelled ==> (p.jobsToExecute.num == numJobs && NrecD == (old(NrecD) + max(0, old(p.jobsToExecute.num))) % 18446744073709551616)
-//@   ensures [cancelled-tick-ignored] G2cancelled ==> (p.jobsToExecute.num == old(p.jobsToExecute.num) && NrecD == old(NrecD))
+//@   ensures [every-live-tick-supersedes] (!G2cancelled && (numJobs <= 0 || !old(p.stopWorkers))) ==> (p.jobsToExecute.num == numJobs && NrecD == (old(NrecD) + max(0, old(p.jobsToExecute.num))) % 18446744073709551616)
+//@   ensures [cancelled-or-stopped-tick-ignored] (G2cancelled || (numJobs > 0 && old(p.stopWorkers))) ==> (p.jobsToExecute.num == old(p.jobsToExecute.num) && NrecD == old(NrecD))
 //@   modifies G2cancelled, p.jobsToExecute.num, GMiter, p.manager.activeScenario.progress.successfulIterationDurations.running, p.manager.activeScenario.progress.failedIterationDurations.running,
 //@            p.manager.activeScenario.progress.droppedIterationCount, NrecS, NrecF, NrecD, SumS, SumF, MinS, MinF, MaxS, MaxF
 //@   ensures [wf] wfTriggerPool(p)
@@ -329,10 +329,79 @@ package workers
 //@ // C02 (supersede): the requests still pending when a new count arrives are reported dropped at that moment, each
 //@ // exactly once, and the new count replaces them
 //@ func (*TriggerPool).sendJobsForExecution
-//@   props C02 C05 C09
+//@   props C02 C05 C09 C04
 //@   requires wfTriggerPool(p)
+//@   assert before call (*jobCounter).set : [new-count-installed-under-the-condition-lock] heldLocker(p.jobsAvailableCond.L)
+//@   assert before call (*Cond).Broadcast : [workers-woken-under-the-condition-lock] heldLocker(p.jobsAvailableCond.L)
 //@   modifies p.jobsToExecute.num, GMiter, p.manager.activeScenario.progress.successfulIterationDurations.running, p.manager.activeScenario.progress.failedIterationDurations.running,
 //@            p.manager.activeScenario.progress.droppedIterationCount, NrecS, NrecF, NrecD, SumS, SumF, MinS, MinF, MaxS, MaxF
-//@   loop 0 invariant wfTriggerPool(p) && 0 <= rangeiter && rangeiter < jobsDiscarded && p.manager == old(p.manager) && p.manager.activeScenario == old(p.manager.activeScenario) && p.manager.activeScenario.progress == old(p.manager.activeScenario.progress) && NrecD == (old(NrecD) + rangeiter) % 18446744073709551616 && NrecS == old(NrecS) && NrecF == old(NrecF) && p.jobsToExecute.num == numJobs
-//@   ensures [replaced] p.jobsToExecute.num == numJobs && wfTriggerPool(p)
-//@   ensures [superseded-dropped] NrecD == (old(NrecD) + max(0, old(p.jobsToExecute.num))) % 18446744073709551616 && NrecS == old(NrecS) && NrecF == old(NrecF)
+//@   loop 0 invariant (numJobs <= 0 || !old(p.stopWorkers)) && wfTriggerPool(p) && 0 <= rangeiter && rangeiter < jobsDiscarded && p.manager == old(p.manager) && p.manager.activeScenario == old(p.manager.activeScenario) && p.manager.activeScenario.progress == old(p.manager.activeScenario.progress) && NrecD == (old(NrecD) + rangeiter) % 18446744073709551616 && NrecS == old(NrecS) && NrecF == old(NrecF) && p.jobsToExecute.num == numJobs
+//@   ensures [replaced] wfTriggerPool(p) && ((numJobs <= 0 || !old(p.stopWorkers)) ==> p.jobsToExecute.num == numJobs)
+//@   ensures [superseded-dropped] NrecS == old(NrecS) && NrecF == old(NrecF) && ((numJobs <= 0 || !old(p.stopWorkers)) ==> NrecD == (old(NrecD) + max(0, old(p.jobsToExecute.num))) % 18446744073709551616)
+//@   ensures [refused-once-stopped] (numJobs > 0 && old(p.stopWorkers)) ==> (p.jobsToExecute.num == old(p.jobsToExecute.num) && NrecD == old(NrecD))
+//@
+//@ // ---- C02 under interleaving (variant @conc): a tick races with the shutdown path. G2pool is the pool under
+//@ // discussion; the environment (fnspec poolEnv) is every other thread of that pool: workers take pending requests
+//@ // (the count only goes down, possibly below zero), and the stop path sets the stop flag and, holding the condition
+//@ // lock, drains the pending count; G2stopDone becomes true at the instant that drain happened. Claim Q: once the stop
+//@ // path has drained, no request is pending any more (a later tick must not install new ones: they would be neither
+//@ // started nor reported dropped).
+//@ ghost var G2pool *TriggerPool
+//@ ghost var G2stopDone bool
+//@ pred stoppedMeansEmpty(p *TriggerPool) = G2stopDone ==> p.jobsToExecute.num <= 0
+//@
+//@ fnspec poolEnv(p *TriggerPool)
+//@   modifies p.jobsToExecute.num, p.stopWorkers, G2stopDone
+//@   ensures (old(G2stopDone) ==> G2stopDone) && (old(p.stopWorkers) ==> p.stopWorkers) && (G2stopDone ==> p.stopWorkers)
+//@   ensures p.jobsToExecute.num <= max(old(p.jobsToExecute.num), 0)
+//@   ensures (G2stopDone && !old(G2stopDone)) ==> p.jobsToExecute.num <= 0
+//@   ensures heldLocker(p.jobsAvailableCond.L) ==> G2stopDone == old(G2stopDone)
+//@
+//@ ghost var G2atSwap bool
+//@ func (*jobCounter).set @conc
+//@   props C02
+//@   interference poolEnv(G2pool)
+//@   requires G2pool != nil && w == G2pool.jobsToExecute && (G2stopDone ==> G2pool.stopWorkers)
+//@   ghost after call (*Int64).Swap : G2atSwap = G2stopDone
+//@   modifies G2pool.jobsToExecute.num, G2pool.stopWorkers, G2stopDone, G2atSwap
+//@   ensures [installed] G2pool.jobsToExecute.num <= max(n, 0)
+//@   ensures [monotone] (old(G2stopDone) ==> G2atSwap) && (G2atSwap ==> G2stopDone) && (old(G2pool.stopWorkers) ==> G2pool.stopWorkers) && (G2stopDone ==> G2pool.stopWorkers)
+//@   ensures [stop-needs-the-lock] heldLocker(G2pool.jobsAvailableCond.L) ==> (G2stopDone == old(G2stopDone) && G2atSwap == old(G2stopDone))
+//@   ensures [drained-if-stopped-after-the-swap] (G2stopDone && !G2atSwap) ==> G2pool.jobsToExecute.num <= 0
+//@
+//@ func (*TriggerPool).running @conc
+//@   props C02
+//@   interference poolEnv(G2pool)
+//@   requires p != nil && p == G2pool && (G2stopDone ==> p.stopWorkers) && stoppedMeansEmpty(p)
+//@   modifies p.jobsToExecute.num, p.stopWorkers, G2stopDone
+//@   ensures [seen-running-means-not-drained-then] result ==> (heldLocker(p.jobsAvailableCond.L) ==> !G2stopDone)
+//@   ensures [monotone] (old(G2stopDone) ==> G2stopDone) && (old(p.stopWorkers) ==> p.stopWorkers) && (G2stopDone ==> p.stopWorkers) && stoppedMeansEmpty(p)
+//@   ensures [stop-needs-the-lock] heldLocker(p.jobsAvailableCond.L) ==> G2stopDone == old(G2stopDone)
+//@
+//@ func (*ActiveScenario).RecordDroppedIteration @conc
+//@   props C02
+//@   trusted the verified base contract shows that recording a drop touches only the statistics and the metrics, never the pool; under interference the pool changes only as poolEnv allows
+//@   requires G2pool != nil && s != nil
+//@   modifies GMiter, s.progress.successfulIterationDurations.running, s.progress.failedIterationDurations.running, s.progress.droppedIterationCount,
+//@            NrecS, NrecF, NrecD, SumS, SumF, MinS, MinF, MaxS, MaxF, G2pool.jobsToExecute.num, G2pool.stopWorkers, G2stopDone
+//@   ensures [env] (old(G2stopDone) ==> G2stopDone) && (old(G2pool.stopWorkers) ==> G2pool.stopWorkers) && (G2stopDone ==> G2pool.stopWorkers)
+//@   ensures [env-count] G2pool.jobsToExecute.num <= max(old(G2pool.jobsToExecute.num), 0) && ((G2stopDone && !old(G2stopDone)) ==> G2pool.jobsToExecute.num <= 0)
+//@
+//@ func (*TriggerPool).sendJobsForExecution @conc
+//@   props C02
+//@   interference poolEnv(G2pool)
+//@   requires p != nil && p == G2pool && p.jobsAvailableCond != nil && (G2stopDone ==> p.stopWorkers) && stoppedMeansEmpty(p) && p.manager != nil && p.manager.activeScenario != nil
+//@   modifies GMiter, p.manager.activeScenario.progress.successfulIterationDurations.running, p.manager.activeScenario.progress.failedIterationDurations.running,
+//@            p.manager.activeScenario.progress.droppedIterationCount, NrecS, NrecF, NrecD, SumS, SumF, MinS, MinF, MaxS, MaxF,
+//@            p.jobsToExecute.num, p.stopWorkers, G2stopDone, G2atSwap
+//@   loop 0 invariant (G2stopDone ==> p.stopWorkers) && stoppedMeansEmpty(p) && p == G2pool && p.manager != nil && p.manager.activeScenario != nil
+//@   ensures [no-request-installed-after-the-drain] stoppedMeansEmpty(p) && (G2stopDone ==> p.stopWorkers)
+//@
+//@ func (*TriggerPool).Trigger @conc
+//@   props C02
+//@   interference poolEnv(G2pool)
+//@   requires p != nil && p == G2pool && ctx != nil && p.jobsAvailableCond != nil && (G2stopDone ==> p.stopWorkers) && stoppedMeansEmpty(p) && p.manager != nil && p.manager.activeScenario != nil
+//@   modifies GMiter, p.manager.activeScenario.progress.successfulIterationDurations.running, p.manager.activeScenario.progress.failedIterationDurations.running,
+//@            p.manager.activeScenario.progress.droppedIterationCount, NrecS, NrecF, NrecD, SumS, SumF, MinS, MinF, MaxS, MaxF,
+//@            p.jobsToExecute.num, p.stopWorkers, G2stopDone, G2atSwap
+//@   ensures [no-request-installed-after-the-drain] stoppedMeansEmpty(p)
